@@ -8,4 +8,19 @@ CLAIMED = {
          "are modelled branch by branch and proved against their set-algebra / Kronecker specifications for all inputs; every run rebuilds the "
          "theorems, audits their axioms and compares model and implementation exactly on generated and enumerated inputs including repeated rows, "
          "negative and out-of-range indices and every dims/exclude/M combination for small N", _NOTE, "DESIGN.md 7 (C17)"),
+ "C01": ("Lean 4 refinement theorems (conversion models = denotation) + differential correspondence with tensor/sptensor/tenmat/sptenmat/ktensor conversions",
+         "to_sptensor/full/to_tenmat/to_tensor/to_sptenmat/to_sptensor/ktensor.full are modelled as the compositions of NumPy primitives the code performs and proved, for every shape, "
+         "order, sparsity pattern and every ordered partition of the modes (either side empty), to preserve the denoted array entry by entry, with the F-order placement rule "
+         "row = sub2ind(shape[r], i[r]), column = sub2ind(shape[c], i[c]), well-formedness and nonzero count of the sparse results and the Kruskal sum formula for all N >= 1 and ranks; "
+         "Tucker/sum expansion are proved under C02. Every run re-checks the theorems and compares implementation, model and the placement rule exactly on generated inputs "
+         "incl. every ordered partition for N<=3 (4 in thorough) and the fc/bc/t conventions", _NOTE, "DESIGN.md 7 (C01)"),
+ "C07": ("Lean 4 index-map theorems (gather / inverse permutation / sub2ind) + differential correspondence with permute/reshape/squeeze of tensor, sptensor, ktensor, ttensor",
+         "permute, reshape (incl. sparse partial reshape of any mode subset) and squeeze are proved to move every entry to the position given by the index formula, for all shapes and "
+         "all permutations, with inverse / identity / rejection theorems and agreement of the sparse and Kruskal operations with the dense formula; every run re-checks the theorems and "
+         "compares implementation, model and the independent index formula exactly on all N! orders for N<=3 (4 thorough), all factorisations of the element count and every mode subset", _NOTE, "DESIGN.md 7 (C07)"),
+ "C16": ("Lean 4 round-trip theorems over a token-level model of export_data/import_data (incl. np.fromfile's reader state) + correspondence on real files",
+         "decode b (encodeBase b o) = ok o is proved for dense, sparse (subscripts, values and their order), Kruskal and matrix objects of every order, shape, rank >= 1 and index base; "
+         "written subscripts are stored + 1; malformed headers / size lines are rejected. Every run exports real files, compares them token by token with the model's encode, imports them "
+         "and compares bit for bit, and checks the premise parse(fmt v) = v on every value token written (whole double exponent range)",
+         _NOTE + "; the premise that '%.16e' text is read back bit-exactly by NumPy/libc is outside the theorems and is checked on every value written", "DESIGN.md 7 (C16)"),
 }
